@@ -476,6 +476,7 @@ macro_rules! generate_opcodes {
             )?
         )*
 
+        #[cfg_attr(boa_verif, derive(Debug))]
         pub(crate) enum Instruction {
             $(
                 $Variant $({
